@@ -4,6 +4,9 @@ import json, subprocess
 
 CLAIMED = {
  # id: (level text, level note, technique, design ref)
+ "C03": ("Import tracker: representation invariant (path->name and name->path mutually inverse, every bound name a valid non-keyword identifier, std names reserved) is preserved by add for every path; add always registers the path (fallback numbering), is idempotent, and leaves every other binding unchanged (whole-map postcondition + frame); LocalNameOf/PathOf/Imports observers; golangTrackerLocalName/toLocalName total. Partial: rawNamer.Name and the import block printer are added as built; 'none unused' is not decided for third-party snippets.",
+         "token.IsIdentifier, strconv.Itoa, strings.Split, slices.Index/Backward/Reverse extern contracts; camelcase.LowerCamelCase (package-level function value) assumed pure; termination of the fallback numbering loop not verified",
+         "deductive verification: representation invariant + whole-map postconditions + frame obligations discharged by SMT", "3/C03"),
  "C04": ("For every map range in the anchored code that is under contract (IsGeneratorEnabled, merge; more as built) the result is proved equal to a function of the map's CONTENTS with the iteration order modelled as an arbitrary duplicate-free enumeration of the key set: order cannot leak. Partial: whole-run determinism and the second-run fixed point are not decided.",
          "determinism of go/packages, go/types, gofumpt, dirhash assumed; statements over histories of runs not decided; only the functions listed in evidence.functions_under_contract are covered",
          "deductive verification (VCs from go/ast+go/types, z3/cvc5): order-independence under permuted map ranges", "3/C04"),
